@@ -42,6 +42,9 @@ func loadWitnesses(prop string) []Witness {
 func variantOutcome(base *World, prop string, overlay map[string][]byte) (status string, fired []string) {
 	w, err := LoadVariant(base, overlay)
 	if err != nil {
+		if os.Getenv("VERIF_DEBUG") != "" {
+			fmt.Println("variant load error:", err)
+		}
 		return "does-not-compile", nil
 	}
 	c := runProp(w, prop, "quick", 1)
